@@ -2,6 +2,7 @@
 // contracts of the mock store say "what was put into a batch was handed to the database":
 //   Batch.n       - number of records appended to the batch so far
 //   Batch.written - the batch was passed to DB.Write, which succeeded
+//   Batch.puts    - number of those records that write a value (Put), as opposed to removing a key (Delete)
 
 package external
 
@@ -9,11 +10,12 @@ package external
 
 //@ ghost field Batch.n int
 //@ ghost field Batch.written bool
+//@ ghost field Batch.puts int
 
 //@ func (*Batch) Put
 //@   trusted
-//@   modifies Batch.n of b
-//@   ensures b.n == old(b.n) + 1
+//@   modifies Batch.n of b, Batch.puts of b
+//@   ensures b.n == old(b.n) + 1 && b.puts == old(b.puts) + 1
 
 //@ func (*Batch) Delete
 //@   trusted
